@@ -30,6 +30,9 @@ int poll_set_new_evt(poll_priv_t *priv, ev_src_t *tmp, const enum op_type flag) 
             /* We need to RM an unregistered ev. Fine. */
             return 0;
         }
+    } else if (flag == ADD) {
+        /* Already registered (its internal fd already exists): nothing to do, just like RM of an unregistered ev */
+        return 0;
     }
     
     int f = flag == ADD ? EPOLL_CTL_ADD : EPOLL_CTL_DEL;
